@@ -12,6 +12,8 @@ NONVACUITY = [
     ("MC_HttpApi_constcode.cfg", "ErrorOwnCode"),            # error code replaced by a constant
     ("MC_HttpApi_nostatus.cfg", "ErrorOwnCode"),             # Status() of a plain error not applied
     ("MC_HttpApi_firstcached.cfg", "ResponseOfCurrentValue"),  # handler object replays the response of its first request
+    ("MC_HttpApi_statusshadows.cfg", "ErrorOwnCode"),        # an error with Code() AND Status() answered as a plain error
+    ("MC_HttpApi_causedispatched.cfg", "ErrorOwnCode"),      # a wrapper of the errors package answered as its Cause()
 ]
 
 # seeded random long lives of a handler object: (behaviours, TLC depth) per tier; MaxServes is in the cfg
@@ -20,8 +22,12 @@ HIST_SIM = {"quick": (200, 60), "thorough": (4000, 90)}
 
 def run(ctx):
     ctx.rule = ("TLC enumerates the decision table of one request: answer kind (data, system / complex / application error, "
-                "plain error, plain error with its own status) x the dimensions that kind reads (error code, status, message "
-                "class, value class) x callback parameter (absent, empty, names) x configured Server header, and emits every row "
+                "application error that also has Status(), plain error, plain error with its own status) x how the value handed "
+                "to Error relates to that error (itself, pointer to the library's value type, struct embedding it, Wrap / "
+                "WithMessage / WithStack of the errors package around it: the specification says what such a value IS to the "
+                "type system and that an error which has its own code is answered with it) x the dimensions that kind reads "
+                "(error code, status, message class, value class; the crossed rows over smaller sets) x callback parameter "
+                "(absent, empty, names) x configured Server header, and emits every row "
                 "with the specification's expected response and client verdict; a case is distinct if its JSON differs. Every row "
                 "is replayed through every public entry point producing that answer (recorder) and through ApiRequest (loopback server). "
                 "Life of a handler object: the answer is made ONCE (Data / Error / CplxError handler, or a function calling the Write* "
@@ -36,6 +42,10 @@ def run(ctx):
         "value classes are concretised by the replayer (fixed table of Go values with hand-written expected documents, plus seeded "
         "random JSON trees); the specification fixes marshalability and JSON type, encoding/json is trusted to parse the answers",
         "the text of a plain error is never itself a JSON object with numeric code 0 (ApiRequest does not look at the HTTP status)",
+        "which kind an error is, is decided by what the value handed to Error is to Go's type system: the concrete value types "
+        "SystemComplexError / SystemError, else a method Code() int (an error that has its own code is answered with it, also when it "
+        "has Status() too), else plain with its Status() or 500; a pointer to / a struct embedding the library's value types and a "
+        "wrapper of the errors package (whatever its Cause() is) have neither the type nor the methods: plain, 500",
         "error codes fit Go's int (64 bit); the client's returned code is compared only up to 2^53 (it is read through float64)",
         "judged per the property only: success rows on status, Content-Type, Server header, wrapping and envelope; coded errors on "
         "the code member; plain errors on the HTTP status; unmarshalable values on 'is an error response'; the client's verdict on a "
@@ -47,7 +57,7 @@ def run(ctx):
     ]
     # ---- phase 1: the specification runs are independent of one another: side by side, with the harness builds
     quick = ctx.tier == "quick"
-    pool = ThreadPoolExecutor(max_workers=6)
+    pool = ThreadPoolExecutor(max_workers=2)      # shared machine: two TLC runs at a time, each with a heap cap
     cases = os.path.join(ctx.out, "cases.ndjson")
     hist = os.path.join(ctx.out, "hist.ndjson")
     simraw = os.path.join(ctx.out, "hist_sim_raw.ndjson")
@@ -57,9 +67,11 @@ def run(ctx):
     def tlc(*a, **kw):
         kw.setdefault("workers", tw)
         kw["count_states"] = False       # counted below, in this thread
+        kw.setdefault("jopts", ["-Xmx2g"])
         return pool.submit(ctx.tlc, "http", *a, **kw)
 
-    others = [pool.submit(ctx.sany, "http", "HttpApi"), pool.submit(ctx.go_build)]
+    builds = ThreadPoolExecutor(max_workers=1)
+    others = [pool.submit(ctx.sany, "http", "HttpApi"), builds.submit(ctx.go_build), builds.submit(ctx.go_build, True)]
     counted = [
         tlc("Gen_HttpApi", "Gen_HttpApi.%s.cfg" % ctx.tier, cases_to=cases, timeout=600),
         # life of a handler object: made once, served several times while the value behind it changes
@@ -72,7 +84,6 @@ def run(ctx):
                       cases_to=simraw, timeout=600))
     for cfg, inv in NONVACUITY:
         others.append(tlc("MC_HttpApi", cfg, expect_violation=inv, workers=2))
-    others.append(pool.submit(ctx.go_build, True))
     err = None
     for f in counted + others:
         try:
@@ -84,6 +95,7 @@ def run(ctx):
             ctx.states += info["distinct"]
             ctx.transitions += info["generated"]
     pool.shutdown()
+    builds.shutdown()
     if err:
         raise err
 
